@@ -1522,6 +1522,32 @@ def _partial_ord(it, args, dty, func):
     raise Unsupported(f"partial_ord on {a!r}")
 
 
+def _int_width(ty, a, b):
+    if is_sym(a) and not z3.is_bool(a):
+        return a.size()
+    if is_sym(b) and not z3.is_bool(b):
+        return b.size()
+    m = re.search(r"\b[ui](8|16|32|64|128|size)\b", ty or "")
+    return {"8": 8, "16": 16, "32": 32, "64": 64, "128": 128, "size": 64}[m.group(1)] if m else 64
+
+
+def _ops_trait(opname):
+    def f(it, args, dty, func):
+        # operator traits on (references to) integers and bools: `&a ^ &b`, `a | &b` ...
+        a, b = _deref(args[0]), _deref(args[1])
+        if not ((isinstance(a, (int, bool)) or is_sym(a)) and (isinstance(b, (int, bool)) or is_sym(b))):
+            raise Unsupported(f"{opname} on {a!r}")
+        from .interp import int_binop
+        signed = bool(re.search(r"\bi(8|16|32|64|128|size)\b", func.split(" as ")[0]))
+        return int_binop(opname, a, b, _int_width(func.split(" as ")[0], a, b), signed)
+    return f
+
+
+for _tr, _me, _op in (("BitXor", "bitxor", "BitXor"), ("BitAnd", "bitand", "BitAnd"), ("BitOr", "bitor", "BitOr"),
+                      ("Add", "add", "Add"), ("Sub", "sub", "Sub"), ("Mul", "mul", "Mul")):
+    trait_model(r"^&*(u8|u16|u32|u64|u128|usize|i8|i16|i32|i64|i128|isize|bool)$", _tr, _me)(_ops_trait(_op))
+
+
 @model_re(r"^tracing::.*$|^tracing_core::.*$")
 def _tracing(it, args, dty, func):
     if dty == "bool":
